@@ -209,7 +209,7 @@ func (c *c01Lab) exchange(ev *dnsserver.C01Event, payload []byte, jsonRaw string
 	retried := false
 	if patient && len(r.Replies) == 0 && jbody == nil && (r.Note == "timeout" || strings.HasPrefix(r.Note, "err:")) {
 		old := c.l.Wait
-		c.l.Wait = time.Duration(vhEnvInt("VERIF_PATIENT_MS", 250)) * time.Millisecond
+		c.l.Wait = time.Duration(vhEnvInt("VERIF_PATIENT_MS", 600)) * time.Millisecond
 		do()
 		c.l.Wait = old
 		ev.Note, retried = "retried;", true
